@@ -115,7 +115,39 @@ class Clean:
             n = self.f.name('U')
             self.undefined.append(n)
             return pre + '<%s>' % n
-        return pre + '(' + self.f.lit('v') + ' || ' + self.f.lit('v') + ')'
+        if k < 0.92:
+            return pre + '(' + self.f.lit('v') + ' || ' + self.f.lit('v') + ')'
+        # a placeholder that is the last item of the word in its own branch, beside longer alternatives
+        # (used to be rejected as "Ambiguous grammar": finding N2 placeholder_beside_longer_alternative_rejected)
+        def ph():
+            n = self.f.name('U')
+            self.undefined.append(n)
+            return '<%s>' % n
+
+        def longer(d):
+            j = r.random()
+            a = self.f.lit('a')
+            if d <= 0 or j < 0.35:
+                return a + '(' + self.f.lit('b') + '|' + self.f.lit('c') + ')'
+            if j < 0.55:
+                return a + '[' + self.f.lit('b') + ']'
+            if j < 0.75:
+                return a + ph()
+            # nested: another choice with a placeholder branch further inside
+            return a + '(' + '|'.join(r.sample([ph(), longer(d - 1)], 2)) + ')'
+
+        def ph_def():
+            # the placeholder reached through a definition: <D> ::= <U>;  or  <D> ::= (<U> | a(b|c));
+            n = self.f.name('D')
+            rhs = ph() if r.random() < 0.5 else '(' + ' | '.join(r.sample([ph(), longer(0)], 2)) + ')'
+            self.defs.append((n, None, rhs))
+            return '<%s>' % n
+
+        alts = [ph_def() if r.random() < 0.3 else ph(), longer(2)]
+        if r.random() < 0.3:
+            alts.append(self.f.lit('d'))
+        r.shuffle(alts)
+        return pre + '(' + '|'.join(alts) + ')'
 
     def build(self, cmd='cmd', nvariants=None):
         r = self.r
